@@ -6,7 +6,8 @@ package main
 // Rule (kept syntactic; go/types is used only to resolve identifiers, callees and the static type of
 // the written container):
 //
-//  1. Entry points: both routers' FindRoute, openapi3filter.ValidateRequest / ValidateResponse,
+//  1. Entry points: both routers' FindRoute, openapi3filter.ValidateRequest / ValidateResponse, the handler returned
+//     by (*openapi3filter.Validator).Middleware (the closure is part of that method's body),
 //     (*openapi3.Schema).VisitJSON, openapi3gen.NewSchemaRefForValue (a Generator object is per call:
 //     its methods are reached through that function, not entered concurrently on one Generator).
 //  2. Reachable functions: static call graph over the library's packages. A reference to a function or
@@ -71,10 +72,12 @@ func init() { register("SharedWrites", extractSharedWrites) }
 
 const kinPath = "github.com/getkin/kin-openapi"
 
-// struct types of package openapi3 that are created per call (never part of a loaded document)
+// struct types of package openapi3 that are created per call (never part of a loaded document). The list is
+// justified by the generated `perCallState` (obligation `per_call_types_are_per_call`): each is declared, no document
+// struct reaches it through its fields, and those that are written in reachable code are allocated in reachable code.
 var perCallTypes = map[string]bool{
 	"schemaValidationSettings": true, "SchemaError": true, "MultiError": true, "ValidationOptions": true,
-	"Loader": true, "refNameResolver": true, "visitedComponent": true, "resolvedRef": true,
+	"Loader": true,
 }
 
 type swRow struct {
@@ -159,6 +162,7 @@ func loadSwx(repo string) (*swx, error) {
 }
 
 type swx struct {
+	perCallWrites map[string]int // per-call struct type (perCallTypes) → writes to its fields in reachable functions
 	extraRoots []string // further entry points (table ValidateWrites: document validation, router construction)
 	pkgList   []*packages.Package
 	repo      string
@@ -640,6 +644,8 @@ func (x *swx) findRoots() {
 		"openapi3filter.ValidateRequest": true, "openapi3filter.ValidateResponse": true,
 		"openapi3.(*Schema).VisitJSON": true,
 		"openapi3gen.NewSchemaRefForValue": true,
+		// the middleware's handler: FindRoute + ValidateRequest + ValidateResponse on one shared Validator
+		"openapi3filter.(*Validator).Middleware": true,
 	}
 	for _, r := range x.extraRoots {
 		want[r] = true
@@ -765,6 +771,9 @@ func (x *swx) isDocStruct(t types.Type) bool {
 		return nt.Obj().Name() == "Route"
 	case "routers/gorillamux", "routers/legacy":
 		return nt.Obj().Name() == "Router"
+	case "openapi3filter":
+		// one Validator (and its Options, handed to every request as &v.options) serves all requests of the middleware
+		return nt.Obj().Name() == "Validator" || nt.Obj().Name() == "Options"
 	case "routers/legacy/pathpattern":
 		return nt.Obj().Name() == "Node" || nt.Obj().Name() == "Suffix"
 	}
@@ -1430,7 +1439,8 @@ func (x *swx) scanFunc(fi *fnInfo) []swCand {
 					return // freshly allocated in this function
 				}
 				if !w.docField && !fi.docAlias[v] {
-					return // per-call structure (not a document type)
+					x.notePerCall(p, lhs) // per-call structure (not a document type): counted, see perCallState
+					return
 				}
 				if i := fi.paramIndex(v); i >= 0 {
 					origins = []swOrigin{{kind: "param", param: i}}
@@ -1570,6 +1580,146 @@ func (x *swx) scanFunc(fi *fnInfo) []swCand {
 }
 
 
+// notePerCall: a write that was NOT taken for a write to shared state because the struct written is one of the
+// per-call types. Counted per type, so that the classification is visible in the table (`perCallState`) and its
+// justification — no document struct can reach such an object, it is allocated inside the call — is an obligation.
+func (x *swx) notePerCall(p *packages.Package, lhs ast.Expr) {
+	for e := ast.Unparen(lhs); ; {
+		switch n := e.(type) {
+		case *ast.SelectorExpr:
+			if tv, ok := p.TypesInfo.Types[n.X]; ok && tv.Type != nil {
+				t := tv.Type
+				if pt, ok := t.Underlying().(*types.Pointer); ok {
+					t = pt.Elem()
+				}
+				if nt, ok := t.(*types.Named); ok && nt.Obj().Pkg() != nil && nt.Obj().Pkg().Path() == kinPath+"/openapi3" && perCallTypes[nt.Obj().Name()] {
+					if x.perCallWrites == nil {
+						x.perCallWrites = map[string]int{}
+					}
+					x.perCallWrites[nt.Obj().Name()]++
+					return
+				}
+			}
+			e = n.X
+		case *ast.IndexExpr:
+			e = n.X
+		case *ast.StarExpr:
+			e = n.X
+		case *ast.ParenExpr:
+			e = n.X
+		default:
+			return
+		}
+	}
+}
+
+// perCallRows: for every type of perCallTypes — is it reachable through the fields of a document struct (then it
+// would be shared with the document), where is it allocated (composite literal / new), how many writes to it were
+// set aside in reachable functions.
+func (x *swx) perCallRows() []string {
+	var o3 *packages.Package
+	for _, p := range x.pkgList {
+		if p.PkgPath == kinPath+"/openapi3" {
+			o3 = p
+		}
+	}
+	if o3 == nil {
+		return nil
+	}
+	// types reachable from document structs through fields / elements / pointers
+	inDoc := map[string]bool{}
+	seen := map[types.Type]bool{}
+	var walk func(t types.Type)
+	walk = func(t types.Type) {
+		if t == nil || seen[t] {
+			return
+		}
+		seen[t] = true
+		if nt, ok := t.(*types.Named); ok && nt.Obj().Pkg() != nil && nt.Obj().Pkg().Path() == kinPath+"/openapi3" {
+			if perCallTypes[nt.Obj().Name()] {
+				inDoc[nt.Obj().Name()] = true
+				return
+			}
+		}
+		switch u := t.Underlying().(type) {
+		case *types.Pointer:
+			walk(u.Elem())
+		case *types.Slice:
+			walk(u.Elem())
+		case *types.Array:
+			walk(u.Elem())
+		case *types.Map:
+			walk(u.Key())
+			walk(u.Elem())
+		case *types.Struct:
+			for i := 0; i < u.NumFields(); i++ {
+				walk(u.Field(i).Type())
+			}
+		}
+	}
+	scope := o3.Types.Scope()
+	for _, nm := range scope.Names() {
+		if tn, ok := scope.Lookup(nm).(*types.TypeName); ok && !perCallTypes[nm] && !tn.IsAlias() {
+			if _, isStruct := tn.Type().Underlying().(*types.Struct); isStruct {
+				walk(tn.Type())
+			}
+		}
+	}
+	// allocation sites
+	alloc := map[string]map[string]bool{}
+	for _, sf := range x.funcs {
+		info := sf.pkg.TypesInfo
+		ast.Inspect(sf.decl.Body, func(n ast.Node) bool {
+			var t types.Type
+			switch n := n.(type) {
+			case *ast.CompositeLit:
+				if tv, ok := info.Types[n]; ok {
+					t = tv.Type
+				}
+			case *ast.CallExpr:
+				if id, ok := n.Fun.(*ast.Ident); ok && id.Name == "new" && len(n.Args) == 1 {
+					if tv, ok := info.Types[n.Args[0]]; ok {
+						t = tv.Type
+					}
+				}
+			}
+			if nt, ok := t.(*types.Named); ok && nt.Obj().Pkg() != nil && nt.Obj().Pkg().Path() == kinPath+"/openapi3" && perCallTypes[nt.Obj().Name()] {
+				if alloc[nt.Obj().Name()] == nil {
+					alloc[nt.Obj().Name()] = map[string]bool{}
+				}
+				alloc[nt.Obj().Name()][funcName(sf.obj)] = true
+			}
+			return true
+		})
+	}
+	var names []string
+	for n := range perCallTypes {
+		names = append(names, n)
+	}
+	sort.Strings(names)
+	var rows []string
+	for _, n := range names {
+		var sites []string
+		for f := range alloc[n] {
+			sites = append(sites, f)
+		}
+		sort.Strings(sites)
+		declared := scope.Lookup(n) != nil
+		var q []string
+		for _, s := range sites {
+			q = append(q, shar_leanStr(s))
+		}
+		reach := false
+		for _, sf := range x.funcs {
+			if alloc[n][funcName(sf.obj)] && x.reachable[sf.obj] {
+				reach = true
+			}
+		}
+		rows = append(rows, fmt.Sprintf("⟨%s, %v, %v, %d, %v, [%s]⟩", shar_leanStr(n), declared, inDoc[n], x.perCallWrites[n], reach, strings.Join(q, ", ")))
+	}
+	return rows
+}
+
 // storeIfAbsent: the write `M[k] = …` at pos sits in the absent-branch of a comma-ok lookup of M[k].
 func (x *swx) storeIfAbsent(sf *swFunc, lhs ast.Expr, pos token.Pos) bool {
 	ix, ok := ast.Unparen(lhs).(*ast.IndexExpr)
@@ -1672,6 +1822,8 @@ func (x *swx) emit() string {
 		fmt.Fprintf(&sb, ".unrecognised %s\n", shar_leanStr(u))
 	}
 	sb.WriteString("]\n\n")
+	// the per-call struct types whose writes were set aside
+	sb.WriteString("def perCallState : List PerCallRow := [\n  " + strings.Join(x.perCallRows(), ",\n  ") + "\n]\n\n")
 	// reachable function names, for inspection (comment only)
 	var names []string
 	for f := range x.reachable {
